@@ -143,8 +143,11 @@ PROPS["C17"] = dict(
     note="warnings.warn returns normally; threading.Lock is a mutex; module names are atoms; glue functions do not touch the pending table, "
          "other modules' glue entries or the cache; thread interleavings other than the one forced schedule are not explored")
 PROPS["C04"] = dict(
-    level="other", contracts=["contracts.c04"],
-    legs=[dict(name="c04_slices", cmd="PYTHONPATH={repo} " + PY312 + " legs/c04_slices.py")], technique=TECH + "; exhaustive bounded cross-product leg",
+    level="other", contracts=["contracts.c04", "contracts.glue_small"],
+    unit_filter=lambda u: u.name.startswith("C04.") or u.name in ("C15.greenback_shim", "C15.greenback_trampoline", "C15.greenback_await", "C15.unwrap_greenlet"),
+    legs=[dict(name="c04_slices", cmd="PYTHONPATH={repo} " + PY312 + " legs/c04_slices.py"),
+          # the running stack of a greenback task crosses the greenback bridges: the same leg as C15 decides that part
+          dict(name="c15_greenlets", cmd="PYTHONPATH={repo} " + PY312 + " legs/c15_greenlets.py")], technique=TECH + "; exhaustive bounded cross-product leg",
     explanation="Deductive part (all inputs, unbounded): try_from's f_back walk is cut by an invariant (frames == chain prefix, outer frame "
                 "not met earlier) and returns the chain up to and including outer_frame outermost-first, the whole chain when no outer is "
                 "given, [] iff outer is not on the chain; the index/slice block of unwrap_stackslice (extracted from the real AST by "
